@@ -57,6 +57,11 @@ class CurProc(plumpy.Process):
         raw = getattr(self, '_raw_inputs', None)
         return 0 if raw is not None and raw['script'].get('falsy') else 1
 
+    def _child_kwargs(self):
+        # with script option 'same_pid' the children are given the id of their parent (records of one job under one id): which process is
+        # current is a matter of the object, not of its id
+        return {'pid': self.pid} if self.script.get('same_pid') else {}
+
     def _same_job(self):
         raw = getattr(self, '_raw_inputs', None)
         return bool(raw is not None and raw['script'].get('all_equal'))
@@ -160,19 +165,19 @@ class CurProc(plumpy.Process):
                 sample(self, 'step', 'seg%d:after-await' % i)
             elif kind == 'launch':
                 child = self.launch(CurProc, inputs={'name': '%s.%d' % (self.raw_inputs['name'], len(self.kids)), 'script': op[1],
-                                                      'parent': self.raw_inputs['name']})
+                                                      'parent': self.raw_inputs['name']}, **self._child_kwargs())
                 self.kids.append(child)
                 sample(self, 'step', 'seg%d:after-launch' % i)
             elif kind == 'nested':
                 child = CurProc(inputs={'name': '%s.%d' % (self.raw_inputs['name'], len(self.kids)), 'script': op[1],
-                                        'parent': self.raw_inputs['name']}, loop=self.loop)
+                                        'parent': self.raw_inputs['name']}, loop=self.loop, **self._child_kwargs())
                 self.kids.append(child)
                 child.execute()  # re-entrant execution inside this step
                 sample(self, 'step', 'seg%d:after-nested' % i)
             elif kind == 'inline':
                 # the child is stepped inline, in this step's own task (as ProcessLauncher does), not in a task of its own
                 child = CurProc(inputs={'name': '%s.%d' % (self.raw_inputs['name'], len(self.kids)), 'script': op[1],
-                                        'parent': self.raw_inputs['name']}, loop=self.loop)
+                                        'parent': self.raw_inputs['name']}, loop=self.loop, **self._child_kwargs())
                 self.kids.append(child)
                 await child.step_until_terminated()
                 sample(self, 'step', 'seg%d:after-inline' % i)
@@ -278,6 +283,14 @@ def _hook(name):
         sample(self, 'hook', name + ':before')
         getattr(super(CurProc, self), name)(*args, **kwargs)
         sample(self, 'hook', name + ':after')
+        if name == 'on_running' and self.script.get('hook_nested') and not getattr(self, '_hook_nested_done', False):
+            # the hook runs another process to its end, re-entrantly (the loop policy allows it), and that process hands this one a
+            # callback: the callback starts while this process is still inside its transition -- it is this process's code all the same
+            self._hook_nested_done = True
+            child = CurProc(inputs={'name': '%s.h' % self.raw_inputs['name'], 'script': {'segments': [[['parent_soon', 'p'], ['yield'], ['parent_soon', 'pp'], ['yield']]]},
+                                    'parent': self.raw_inputs['name']}, loop=self.loop)
+            child.execute()
+            sample(self, 'hook', name + ':after-nested-run')
 
     hook.__name__ = name
     return hook
